@@ -73,6 +73,9 @@ def make_pool(seed):
     P['eLpp'] = E.ElementLinePp(3)
     P['eQP'] = E.ElementQuadP(3)
     P['eQ1'] = E.ElementQuad1()
+    from skfem.mapping import MappingIsoparametric
+    P['mapL'] = MappingIsoparametric(P['mL'], E.ElementLineP1())
+    P['mapQ'] = MappingIsoparametric(P['mQ'], E.ElementQuad1(), E.ElementLineP1())
     P['lap'] = fem.BilinearForm(lambda u, v, w: sum(u.grad[k] * v.grad[k] for k in range(u.grad.shape[0])) + u * v)
     P['load'] = fem.LinearForm(lambda v, w: (1 + w.x[0]) * v)
     P['s_direct'] = solver_direct_scipy()
@@ -193,6 +196,15 @@ def operations():
         lambda P: _basis_obs(fem.CellBasis(P['mQ'], P['eQ1'], elements=np.array([1], dtype=np.int64))))
     op('CellBasis(mQ,eQ1,[1,0]i32)', {'mQ', 'eQ1'})(
         lambda P: _basis_obs(fem.CellBasis(P['mQ'], P['eQ1'], elements=np.array([1, 0], dtype=np.int32))))
+    # explicit (pooled) isoparametric mapping objects shared by several bases
+    op('CellBasis(mL,LineP2,mapping=mapL)', {'mL', 'mapL'})(
+        lambda P: _basis_obs(fem.CellBasis(P['mL'], E.ElementLineP2(), mapping=P['mapL'])))
+    op('CellBasis(mL,LineP1,mapping=mapL)+mass', {'mL', 'mapL', 'lap'})(
+        lambda P: [P['lap'].assemble(fem.CellBasis(P['mL'], E.ElementLineP1(), mapping=P['mapL'])).toarray()])
+    op('CellBasis(mQ,Quad2,mapping=mapQ)', {'mQ', 'mapQ'})(
+        lambda P: _basis_obs(fem.CellBasis(P['mQ'], E.ElementQuad2(), mapping=P['mapQ'])))
+    op('FacetBasis(mQ,Quad1,mapping=mapQ)', {'mQ', 'mapQ'})(
+        lambda P: _basis_obs(fem.FacetBasis(P['mQ'], E.ElementQuad1(), mapping=P['mapQ'])))
     # equal-size quadratures at different points
     X1 = np.array([[.125, .5, .875]])
     X2 = np.array([[.25, .375, .75]])
